@@ -910,6 +910,8 @@ class LibsModel:
                 out = out.w(ty='tuple', elts=list(it.colvals), rowof=True)
             if ax == ():
                 out = out.w(ty='float' if it.dtype != 'int' else 'int')
+            if it.shifted is not None and (it.shifted[0], it.shifted[3]) in ((0, 1), (1, 0)):
+                out = out.w(shift_item=(it.shifted[0], it.shifted[1]), pair_seq=it.shifted_of)  # an element of e[:-1] (0) / e[1:] (1)
             if it.tbl is not None or is_table(it.litconst):
                 out = out.w(tbl=it.tbl if it.tbl is not None else it.litconst)  # a row of a literal table
             if it.bin is not None and it.tbl is not None:
